@@ -116,6 +116,11 @@ func (in *Interp) errorValue(msg Value, level int64) Value {
 func (in *Interp) installBuiltins() {
 	G := in.Globals
 	G.Set("_G", G)
+	// redump(f) stands for load(string.dump(f)): the identity on functions
+	// without free local variables (property C13).
+	in.reg(G, "redump", func(in *Interp, site any, args []Value) []Value {
+		return []Value{arg(args, 0)}
+	})
 	in.reg(G, "emit", func(in *Interp, site any, args []Value) []Value {
 		ev := make([]string, len(args))
 		for i, a := range args {
